@@ -182,12 +182,37 @@ def truth(i):
     return [x["matched"] for x in a]
 
 
+def analysed_tags(b):
+    """The classified transactions run through the analysis step `tally up` reports from: every transaction keeps all its tags,
+    and a merchant's tags are the union over its transactions."""
+    import datetime as _dt
+    from tally.analyzer import analyze_transactions
+    txns = []
+    for k, (t, r) in enumerate(zip(TXNS, b)):
+        txns.append({"merchant": r["merchant"], "category": r["category"], "subcategory": r["subcategory"], "amount": t["amount"],
+                     "date": _dt.datetime(2025, 1 + k % 3, 1 + k % 27), "description": r["merchant"], "raw_description": t["description"],
+                     "source": t["source"] or "S", "tags": list(r["tags"])})
+    want = {}
+    for x in txns:
+        want.setdefault(x["merchant"], set()).update(g.lower() for g in x["tags"])
+    stats = analyze_transactions([dict(x, tags=list(x["tags"])) for x in txns])
+    got = {m: {g.lower() for g in d.get("tags", [])} for m, d in stats["by_merchant"].items()}
+    return want, got
+
+
 def check_rules(case):
     mode, seq = case["mode"], tuple(case["rules"])
     a, b = results(mode, seq)
     tr = [truth(i) for i in seq]
     rt = [resolved_tags(i) for i in seq]
     viol, outcomes, nontrivial, evals = [], set(), False, 0
+    if len(seq) <= 2:
+        want_m, got_m = analysed_tags(b)
+        evals += 1
+        if want_m != got_m:
+            bad = sorted(m for m in set(want_m) | set(got_m) if want_m.get(m) != got_m.get(m))[:3]
+            viol.append({"kind": "tags-not-union", "detail": {"entry": "analyze_transactions (what the report shows)", "mode": MODES[mode],
+                                                              "merchants": {m: {"classified": sorted(want_m.get(m, [])), "reported": sorted(got_m.get(m, []))} for m in bad}}})
     has_tagonly = any(not RULES[i].get("category") for i in seq)
     na, nb = results(mode, seq, None, True) if has_tagonly else (a, b)
     for ti, t in enumerate(TXNS):
